@@ -1468,6 +1468,104 @@ def ob_job_tag(ctx, distinguishable):
     return res
 
 
+def ob_place_tags_read(ctx, n_places):
+    """C03 (place tag, reader + writer side together): `get_single` of the job reader (real MIR) turns a task with
+    `n_places` alternative places - each with or without a tag, symbolically - into a core `Single`; `get_job_tag` (real MIR)
+    is then asked for the tag of an activity that uses place u (symbolic) with exactly that place's location and window.  The
+    reported tag is the tag the DOCUMENT gives place u (none if that place is untagged); the places keep their order, location,
+    duration and windows.  Places at pairwise different locations (so the matching by location is unambiguous)."""
+    name = f'place_tags_read[places={n_places}]'
+    res = Result(name)
+    res.bounds = f'one task with {n_places} alternative places at pairwise different locations; tag present/absent per place symbolic; one absolute window each; times in [0,2^16]'
+    t0 = time.time()
+    get_single = ctx.prog.find_free('get_single')
+    get_job_tag = ctx.prog.find_free('get_job_tag')
+
+    class Env(drivers.Env):
+        def override(self, engine, st, callee, args, dest_ty):
+            base = callee.split('::<')[0]
+            if base.endswith('CoordIndex::get_by_loc'):
+                loc = deref_all(args[1])
+                return mk_option(True, loc.payload[1][0], ty=dest_ty)
+            return super().override(engine, st, callee, args, dest_ty)
+
+    env = Env(ctx.prog, ctx.layout, 16)
+    eng, _ = ctx.engines(env)
+    holder = {}
+    TAGS = ['"t%d"' % i for i in range(n_places)]
+
+    def body(st):
+        env.assumptions.clear()
+        data, info = [], []
+        for i in range(n_places):
+            loc = env.sym_i(f'place{i}_loc', 0, 1000)
+            s_, e_ = env.sym_f(f'place{i}_start'), env.sym_f(f'place{i}_end')
+            env.assumptions.append(s_.v <= e_.v)
+            tagged = z3.Bool(f'place{i}_tagged')
+            tag = EnumV('Option<String>', zs(z3.If(tagged, 1, 0)), {1: [Opaque(TAGS[i])]})
+            location = mk_option(True, EnumV('format::Location', 1, {1: [loc]}), ty='Option<Location>')
+            times = VecV([EnumV('domain::TimeSpan', 0, {0: [env.time_window(s_, e_)]})])
+            data.append(Agg('tuple', [location, FV.const(0), times, tag], ''))
+            info.append((loc, s_, e_, tagged))
+        for i in range(n_places):
+            for j in range(i):
+                env.assumptions.append(info[i][0].t != info[j][0].t)
+        single = eng.exec_fn(st, get_single, [VecV(data), RefV(Cell(Opaque('coord_index')), 0)])
+        used = z3.Int('used_place')
+        u = eng.choose(st, [(used == i, i) for i in range(n_places)])
+        loc_u, s_u, e_u, _ = info[u]
+        arg = Agg('tuple', [loc_u, Agg('tuple', [env.time_window(s_u, e_u), FV.const(0)], '')], '')
+        holder.update(info=info, single=single, u=u)
+        return (u, single, eng.exec_fn(st, get_job_tag, [RefV(Cell(single), 0), arg]))
+
+    paths = eng.explore(body, max_paths=4000)
+    res.paths = len(paths)
+    res.functions |= eng.functions_used
+    saw_t = saw_u = False
+    for st, out in paths:
+        if out is None:
+            if not no_panic(ctx, res, env, st, what=name):
+                break
+            continue
+        u, single, got = out
+        info = holder['info']
+        var = got.variant()
+        if var is None:
+            res.status, res.detail = 'inconclusive', 'symbolic option'
+            break
+        tagged_u = info[u][3]
+        if var == 0:
+            claim = z3.Not(tagged_u)
+        else:
+            tag = deref_all(got.payload[1][0])
+            claim = z3.And(tagged_u, z3.BoolVal(tag.name == TAGS[u]))
+        # the places of the core job are the document's places, in order
+        places = env.field(single, 'jobs::Single', 'places').items
+        same = len(places) == n_places
+        conds = [claim, z3.BoolVal(same)]
+        if same:
+            for i, pl in enumerate(places):
+                loc = env.field(pl, 'jobs::Place', 'location')
+                conds.append(z3.And(loc.discr == 1, loc.payload[1][0].t == info[i][0].t) if 1 in loc.payload else z3.BoolVal(False))
+        if not decide_claim(ctx, res, env, st, z3.And(*conds), what=f'{name}: reported tag == tag the document gives the used place {u}'):
+            if res.status == 'violated' and res.model is not None:
+                m = res.model
+                ev = lambda t: m.eval(t, model_completion=True).as_long()
+                res.case = {'kind': 'job_tag', 'places': [{'loc': ev(l.t), 'start': ev(a.v), 'end': ev(b.v), 'tagged': bool(z3.is_true(m.eval(tg, model_completion=True)))}
+                                                          for l, a, b, tg in info], 'used': u}
+            break
+        if not no_panic(ctx, res, env, st, what=name):
+            break
+        saw_t = saw_t or witness(ctx, res, env, st, tagged_u)
+        saw_u = saw_u or witness(ctx, res, env, st, z3.Not(tagged_u))
+    if res.status == 'holds':
+        res.witnesses = int(saw_t) + int(saw_u)
+        if not (saw_t and saw_u):
+            res.status, res.detail = 'inconclusive', 'vacuous'
+    res.time = time.time() - t0
+    return res
+
+
 def ob_match_place(ctx):
     """C03 (place tag, read-back side): `match_place` of the initial-solution reader (real MIR) for a task with two tagged
     alternative places and an activity of that job that carries the tag of place u (symbolic), place u's location, and a
